@@ -17,7 +17,8 @@ RULE = ("(tag name, declared datatype or none, Python value, vlevel 0-3, set() o
         "non-printables or empty, multi-character A, wrong Python type. Valid: declared-or-default datatype, "
         "written tag accepted by the independent grammar, re-parsed value equal with the same datatype, B written "
         "with the smallest subtype; the same assignment on a line that belongs to a Gfa (for H: the Gfa's header) is "
-        "written with the same tag text by str(gfa) and read back equal from that document; deleting or retyping the "
+        "written with the same tag text by str(gfa) and read back equal from that document; a NumericArray that was validated and "
+        "is then edited in place across a subtype boundary is written with the subtype of its new values; deleting or retyping the "
         "tag on a clone does not change how the original writes it. Invalid: reported by validate_field()/validate() at every level and by "
         "writing at level >= 2 (never a clean malformed line). non-trivial = boundary value, array, nested JSON "
         "or float with exponent; distinct by (datatype, repr(value), vlevel)")
@@ -232,6 +233,33 @@ def prop(case):
         if not values_equal(dt, spec, here) and not (here == value):
             raise Violation("get-after-set", "%s: get returns %r" % (ctx, here), dt)
         _through_gfa(case, version, name, declared, existing, dt, spec, tag, ctx)
+        if dt == "B" and spec["kind"] == "intlist":
+            # the array object is validated, edited in place across a subtype boundary and
+            # written again: the subtype is that of the values it holds now
+            cur = line.get(name)
+            probe = list(spec["v"])
+            probe[0] = -1 if min(probe) >= 0 else 70000
+            try:
+                gen.smallest_subtype(probe)
+                representable = True
+            except ValueError:
+                representable = False  # (e.g. -1 next to 2^32-1: no subtype holds both)
+            if isinstance(cur, gfapy.NumericArray) and len(cur) >= 1 and representable:
+                try:
+                    line.validate_field(name)
+                    line.validate()
+                    newvals = list(cur)
+                    newvals[0] = -1 if min(newvals) >= 0 else 70000
+                    cur[0] = newvals[0]
+                    tag3 = line.field_to_s(name, tag=True)
+                    written3 = str(line)
+                except Exception as e:
+                    raise Violation("in-place-edit", "%s: validating, editing the array in place and writing raised %s: %s" % (ctx, type(e).__name__, str(e)[:200]), type(e).__name__)
+                want3 = "%s:B:%s,%s" % (name, gen.smallest_subtype(newvals), ",".join(str(x) for x in newvals))
+                if tag3 != want3 or "# INVALID" in written3:
+                    raise Violation("subtype-after-edit", "%s: after validate() and %s[0] = %d the tag is written %r (line %r), expected %r" % (
+                        ctx, name, newvals[0], tag3, written3, want3), "B")
+                cur[0] = spec["v"][0]
         # what is done to a clone (same tag deleted, or given a value of another kind) does not
         # change how the original writes its tag
         try:
